@@ -15,6 +15,7 @@ import re
 import vcommon as vc
 import gen_hostmodel as gen
 import monitors_hostmodel as mon
+import hostops
 
 PROPERTIES = ["C01", "C02", "C03", "C04", "C05", "C09", "C10", "C11", "C12", "C16", "C17"]
 
@@ -117,6 +118,18 @@ def shared_run(ctx, scenarios, label):
                 f.write(text)
             rc, e = vc.run_to_file([h, cases_p], impl_p, timeout=3000)
             if rc != 0:
+                # the library crashed (signal) or aborted on a generated in-domain scenario:
+                # the scenario being run is the failing input
+                last = -1
+                for l in open(impl_p, errors="replace"):
+                    t = l.split(" ", 1)[0]
+                    if t.isdigit():
+                        last = max(last, int(t))
+                blocks = scenario_texts(cases_p)
+                if 0 <= last < len(blocks):
+                    ctx.violation("%s.crash.model_run" % ctx.pid,
+                                  "the library terminated abnormally (exit %d) while running this in-domain scenario (or the one after it)" % rc,
+                                  "".join(blocks[last:last + 2]), e)
                 ctx.broke("implementation harness run hostmodel (exit %d)" % rc, e)
                 return None
             rc, e = vc.run_to_file([m, cases_p, impl_p], model_p, timeout=3000)
@@ -148,6 +161,9 @@ def check(ctx, replay=None):
     if not ctx.proof.ok:
         ctx.broke("proof obligations of Properties_%s.v%s" % (pid, (" (" + ctx.proof.failed_theorem + ")") if ctx.proof.failed_theorem else ""),
                   "\n".join(ctx.proof.problems) + "\n" + ctx.proof.log[-1500:])
+    # operation-level tie: arbitrary sequences of public HostPool calls against the
+    # CellDefs/LandDefs functions the cell-level theorems are about (C01-C05, C10, C11)
+    hostops.part(ctx, pid, replay)
     if replay:
         class S:  # a replay file is a sequence of case blocks
             def __init__(self, t):
